@@ -16,6 +16,7 @@
                                         the result, and is attached here so that the model stays
                                         first-order data. *)
 From Coq Require Import NArith List Bool.
+From SG Require Paths.Model.
 Import ListNotations.
 Open Scope N_scope.
 
@@ -54,26 +55,26 @@ Definition is_grandfathered (r : result) : bool :=
 Definition is_structure (r : result) : bool :=
   match r_kind r with Structure _ => true | Content => false end.
 
-(* crate::output::path::path_key (fix D08): normalize_for_matching (one leading "./" or ".\"
-   stripped), backslash -> slash, then every further leading "./" stripped, and the empty string
-   and "." spelled ".". On relative paths that is: map backslash to slash, strip all leading
-   "./", spell the empty result and "." as ".". Nothing else is normalised ("a/../b", "a//b", a
-   trailing slash stay). The function is idempotent (Proofs_Check.norm_key_idem), so the second
+(* crate::output::path::path_key (fixes D08, D39): normalize_for_matching = backslashes become
+   separators, then the path is rebuilt from Path::components() without the "." components
+   (so repeated and trailing separators and interior "/./" disappear; the RootDir marker of an
+   absolute path is kept); path_key spells the empty result ".". The components normaliser is
+   the shared model SG.Paths.Model (unbackslash, comps, join_slash, is_abs); ".." components
+   stay. The function is idempotent on every string (Proofs_Check.norm_key_idem), so the second
    application inside Baseline::contains / set_* / remove / load changes nothing.
-   Not modelled: an absolute path below the current directory is first made relative (needs the
-   process cwd; the generators never produce absolute paths). *)
+   Not modelled here: an absolute path below the current directory is first made relative
+   (strip_current_dir needs the process cwd; SG.Paths.Model.norm has it; the generators of
+   C09-C11 never produce absolute paths below the cwd). *)
 Definition norm_char (c : N) : N := if N.eqb c 92 then 47 else c.
-Fixpoint strip_all (p : str) : str :=
-  match p with
-  | a :: ((b :: rest) as t) => if N.eqb a 46 && N.eqb b 47 then strip_all rest else p
-  | _ => p
-  end.
 Definition dot_if_empty (s : str) : str :=
   match s with
   | [] => [46]
   | _ => s
   end.
-Definition norm_key (p : str) : key := dot_if_empty (strip_all (map norm_char p)).
+Definition norm_key (p : str) : key :=
+  let u := SG.Paths.Model.unbackslash p in
+  dot_if_empty ((if SG.Paths.Model.is_abs u then [47] else []) ++
+                SG.Paths.Model.join_slash (SG.Paths.Model.comps u)).
 (* a key that path_key leaves alone *)
 Definition stable_key (k : key) : Prop := norm_key k = k.
 Definition stable_keyb (k : key) : bool := str_eqb (norm_key k) k.
